@@ -31,7 +31,7 @@ from ..core import Check, jdigest, result_template, scratch_dir
 from ..oracles import geom
 from ..run import cleanup, wrap_method
 from . import sched
-from .common import drive, generic_shrinks, raised_in_harness, time_info, variant
+from .common import drive, generic_shrinks, over, raised_in_harness, time_info, variant
 
 
 def install_update_monitor():
@@ -79,7 +79,7 @@ def judge_updates(viol, cnt, res, cond=None):
             ref = geom.wrap_pi(float(r["true_y"][i]) - float(r["pred_y"][i]))
             d = abs(geom.wrap_pi(inn - ref))
             max_inn = max(max_inn, d)
-            if d > 1e-11:
+            if over(d, 1e-11):
                 viol.append({"clause": "innovation-not-wrapped-difference", "key": "angular",
                              "detail": f"step {r['step']} target {r['target']} component {i}: innovation {inn!r}, measured {float(r['true_y'][i])!r} - predicted {float(r['pred_y'][i])!r} wraps to {ref!r}"})
             if abs(abs(float(r["true_y"][i]) - float(r["pred_y"][i])) - 2 * math.pi) < 0.5 or abs(float(r["true_y"][i]) - float(r["pred_y"][i])) > math.pi:
@@ -97,7 +97,7 @@ def judge_updates(viol, cnt, res, cond=None):
             tol = 1e-12 + 20 * 2.3e-16 * float(np.abs(w).sum())
             max_mean = max(max_mean, d / tol)
             lo, hi = (-math.pi, math.pi) if kind == 1 else (0.0, 2 * math.pi)
-            if d > tol:
+            if over(d, tol):
                 viol.append({"clause": "measurement-mean-not-circular-mean", "key": "angular",
                              "detail": f"step {r['step']}: predicted measurement mean {float(r['mean'][i])!r} of angular component {i}, weighted circular mean of the sigma measurements is {ref!r}"})
             elif not (lo - 1e-12 <= float(r["mean"][i]) <= hi + 1e-12):
@@ -155,7 +155,7 @@ def compare_estimates(a, b, what, viol, cnt, _cond=None):
         cnt["posterior_pairs_compared"] = cnt.get("posterior_pairs_compared", 0) + 1
         if ra["n_obs"] >= 2:
             cnt["posterior_pairs_compared_with_2plus_observations"] = cnt.get("posterior_pairs_compared_with_2plus_observations", 0) + 1
-        if rx > 1 or rp > 1:
+        if over(rx, 1) or over(rp, 1):
             viol.append({"clause": f"posterior-depends-on-{what[0]}", "key": what[1],
                          "detail": f"step {k} target {tid}: same prior, {ra['n_obs']} observations: posterior state differs by {float(np.max(np.abs(ra['est_x'] - rb['est_x']))):.3e} "
                                    f"({rx:.1f}x the allowance), covariance by {float(np.max(np.abs(ra['est_p'] - rb['est_p']))):.3e} ({rp:.1f}x), cond(S)={c:.2e}, between {what[2]}"})
